@@ -111,8 +111,11 @@ def sizes_kw(rng, groups_list):
     return kw
 
 
-def _d(op, desc, tensors, kw=None):
-    return {"op": op, "desc": desc, "tensors": tensors, "kw": dict(kw or {}), "graph": False, "backend": None}
+def _d(op, desc, tensors, kw=None, axes=None):
+    d = {"op": op, "desc": desc, "tensors": tensors, "kw": dict(kw or {}), "graph": False, "backend": None}
+    if axes:
+        d["_axes"] = {n: int(s) for n, s in axes}  # generator knowledge (named axes and their sizes); not passed to einx
+    return d
 
 
 def gen_call(rng, fam=None, names=NAMES):
@@ -129,7 +132,7 @@ def gen_call(rng, fam=None, names=NAMES):
         go = group(rng, out)
         kw = sizes_kw(rng, [gi])
         kw.update({n: s for n, s in out if n not in dict(ax)})
-        return _d("id", f"{gstr(gi)} -> {gstr(go)}", [mkdata(rng, gshape(gi), kind)], kw)
+        return _d("id", f"{gstr(gi)} -> {gstr(go)}", [mkdata(rng, gshape(gi), kind)], kw, axes=ax)
     if fam == "idcat":
         ax = axes(rng, rng.randint(1, 3), names=names)
         k = rng.randrange(len(ax))
@@ -173,7 +176,7 @@ def gen_call(rng, fam=None, names=NAMES):
             d = f"{gstr(gi, br)} -> {' '.join(n for n, _ in keep)}"
         else:
             d = f"{gstr(gi)} -> {' '.join(n for n, _ in keep)}"
-        return _d(op, d, [x], kw)
+        return _d(op, d, [x], kw, axes=ax)
     if fam == "elem":
         op = rng.choice(ELEM)
         ax = axes(rng, rng.randint(1, 4), names=names)
@@ -190,7 +193,7 @@ def gen_call(rng, fam=None, names=NAMES):
         d = ", ".join(" ".join(n for n, _ in sub) for sub in ins)
         if rng.random() < 0.7:
             d += " -> " + " ".join(n for n, _ in out)
-        return _d(op, d, xs)
+        return _d(op, d, xs, axes=ax)
     if fam == "dot":
         ax = axes(rng, rng.randint(2, 5), names=names)
         role = {n: rng.choice("bclr") for n, _ in ax}
@@ -204,7 +207,7 @@ def gen_call(rng, fam=None, names=NAMES):
         rng.shuffle(o)
         br = frozenset(n for n in role if role[n] == "c") if rng.random() < 0.5 else frozenset()
         d = f"{gstr([[a] for a in l], br)}, {gstr([[a] for a in r], br)} -> {' '.join(n for n, _ in o)}"
-        return _d("dot", d, [mkdata(rng, tuple(s for _, s in l), kind), mkdata(rng, tuple(s for _, s in r), kind)])
+        return _d("dot", d, [mkdata(rng, tuple(s for _, s in l), kind), mkdata(rng, tuple(s for _, s in r), kind)], axes=ax)
     if fam in ("get_at", "update_at"):
         ax = axes(rng, rng.randint(1, 3), sizes=(2, 3, 4), names=names)
         nb = rng.randint(1, len(ax))
@@ -250,7 +253,7 @@ def gen_call(rng, fam=None, names=NAMES):
         d = gstr([[a] for a in ax], br)
         if len(br) == 1 and rng.random() < 0.5:
             d += " -> " + " ".join(n for n, _ in ax if n not in br)
-        return _d(op, d, [mkdata(rng, tuple(s for _, s in ax), kind)])
+        return _d(op, d, [mkdata(rng, tuple(s for _, s in ax), kind)], axes=ax)
     if fam == "pres":
         op = rng.choice(PRES)
         ax = axes(rng, rng.randint(1, 4), names=names)
@@ -258,7 +261,7 @@ def gen_call(rng, fam=None, names=NAMES):
         br = frozenset([rng.choice(ax)[0]]) if one else (frozenset(n for n, _ in ax if rng.random() < 0.5) or frozenset([ax[0][0]]))
         kw = {"shift": rng.randint(-3, 3)} if op == "roll" else {}
         k2 = "float" if "softmax" in op else kind
-        return _d(op, gstr([[a] for a in ax], br), [mkdata(rng, tuple(s for _, s in ax), k2)], kw)
+        return _d(op, gstr([[a] for a in ax], br), [mkdata(rng, tuple(s for _, s in ax), k2)], kw, axes=ax)
     if fam == "solve":
         op = rng.choice(["solve_axes", "solve_shapes", "matches"])
         ax = axes(rng, rng.randint(1, 4), names=names)
